@@ -521,7 +521,19 @@ impl<'de> serde::de::Visitor<'de> for RefLenientVisitor {
         Ok(RefLenient { hi: v as f64, lo: 0.0 })
     }
     fn visit_str<E: serde::de::Error>(self, v: &str) -> Result<RefLenient, E> {
-        v.trim().parse::<f64>().map(|x| RefLenient { hi: x, lo: 0.0 }).map_err(|_| E::custom("not a numeric string"))
+        // a numeric string is (x, 0); any other string might be the implementation's own text
+        // form ("1 + 0.5"), which C20 does not forbid it to read: accepted here with placeholder
+        // words, which makes the record unspecified rather than must-reject
+        Ok(RefLenient { hi: v.trim().parse::<f64>().unwrap_or(0.0), lo: 0.0 })
+    }
+    fn visit_bool<E: serde::de::Error>(self, _v: bool) -> Result<RefLenient, E> {
+        Ok(RefLenient { hi: 0.0, lo: 0.0 })
+    }
+    fn visit_unit<E: serde::de::Error>(self) -> Result<RefLenient, E> {
+        Ok(RefLenient { hi: 0.0, lo: 0.0 })
+    }
+    fn visit_none<E: serde::de::Error>(self) -> Result<RefLenient, E> {
+        Ok(RefLenient { hi: 0.0, lo: 0.0 })
     }
     fn visit_seq<A: serde::de::SeqAccess<'de>>(self, mut seq: A) -> Result<RefLenient, A::Error> {
         use serde::de::Error;
@@ -733,17 +745,26 @@ fn reject_probe(kind: &ErrKind, mode: Mode) -> &'static str {
     }
 }
 
+fn is_lattice_fault(f: &StorageFault) -> bool {
+    matches!(f, StorageFault::SetWord { label, .. } if label.starts_with("lattice_"))
+}
+
 pub fn execute(c: &DeCase) -> LegReport {
     let mut rep = LegReport::default();
     let (entries, effective) = derive_stream_counted(c);
     for (f, eff) in c.faults.iter().zip(&effective) {
-        if *eff {
+        if is_lattice_fault(f) {
+            rep.probes.hit("lattice_word_pair_delivered");
+        } else if *eff {
             rep.faults_fired.hit(f.label());
         } else {
             rep.probes.hit("storage_fault_planned_without_effect");
         }
     }
-    rep.faulted = !c.faults.is_empty() || c.access_fault.is_some();
+    // the validity-gate lattice delivers chosen word pairs through `SetWord`: that is enumeration of
+    // the delivered record, not an injected fault
+    let is_lattice = |f: &StorageFault| matches!(f, StorageFault::SetWord { label, .. } if label.starts_with("lattice_"));
+    rep.faulted = c.faults.iter().any(|f| !is_lattice(f)) || c.access_fault.is_some();
     rep.probes.hit(match c.mode {
         Mode::Seq => "de_mode_seq",
         Mode::Map => {
